@@ -6,14 +6,14 @@ VERIF = os.path.dirname(os.path.dirname(os.path.abspath(__file__)))
 ASSUMPTIONS = [
     "sampling, not enumeration: a clean batch is evidence, not proof",
     "the simulator serialises threads, so memory is sequentially consistent inside a run (no weak-memory reorderings)",
-    "futex, POSIX semaphores, clocks, timerfd expiry, sleep/yield, gettid, /proc/<tid>/stat and the CPU count are simulated (sim/sim.c); epoll, eventfd, pipes, sockets, files and malloc are the real kernel/libc",
+    "futex, POSIX semaphores, clocks, timerfd expiry, signalfd and signal delivery, sleep/yield, gettid, /proc/<tid>/stat and the CPU count are simulated (sim/sim.c); epoll, eventfd, pipes, sockets, files and malloc are the real kernel/libc",
     "only the Linux build of libdispatch is exercised (epoll back end, internal pthread workqueue); kevent/Mach/Windows code is not compiled",
     "hook mode schedules at atomics and intercepted calls only; the 'full' build additionally schedules at every non-stack memory access",
 ]
 
 REAL_VS_STUB = {
     "real": ["every libdispatch translation unit of the Linux build (queue.c, source.c, event/*.c, semaphore.c, once.c, apply.c, data.c, io.c, time.c, object.c, init.c, allocator.c, block.cpp, shims/lock.c, shims/yield.c)", "BlocksRuntime", "kernel epoll/eventfd/pipes/socketpairs/regular files", "glibc or ASan malloc"],
-    "simulated": ["thread scheduling (baton)", "futex", "POSIX semaphores", "CLOCK_MONOTONIC/BOOTTIME/REALTIME", "timerfd expiry (eventfd stand-in)", "sleep/usleep/sched_yield", "gettid", "/proc/<tid>/stat", "CPU count", "faults on read/write/pread/pwrite/calloc/posix_memalign/pthread_create"],
+    "simulated": ["thread scheduling (baton)", "futex", "POSIX semaphores", "CLOCK_MONOTONIC/BOOTTIME/REALTIME", "timerfd expiry (eventfd stand-in)", "signalfd / signal delivery (eventfd stand-in, sim_signal_raise, misfire fault)", "sleep/usleep/sched_yield", "gettid", "/proc/<tid>/stat", "CPU count", "faults on read/write/pread/pwrite/calloc/posix_memalign/pthread_create"],
     "not_compiled_on_linux": ["event_kevent.c", "event_windows.c", "mach.c", "voucher/firehose", "kevent workqueue / workloop-kevent paths"],
 }
 
